@@ -498,17 +498,27 @@ func genConds(r *Rng) []string {
 
 var nodeInvalidSeg = regexp.MustCompile(`(?i)(^|\\|/)((\.|%2e)(\.|%2e)?|(n|%6e|%4e)(o|%6f|%4f)(d|%64|%44)(e|%65|%45)(_|%5f)(m|%6d|%4d)(o|%6f|%4f)(d|%64|%44)(u|%75|%55)(l|%6c|%4c)(e|%65|%45)(s|%73|%53))(\\|/|$)`)
 
-func esbInvalidSeg(p string) bool { // findInvalidSegment of the pinned tree (first segment skipped)
-	i := strings.IndexAny(p, "/\\")
-	if i < 0 {
-		return false
-	}
-	for _, s := range strings.FieldsFunc(p[i+1:], func(c rune) bool { return c == '/' || c == '\\' }) {
-		if s == "." || s == ".." || s == "node_modules" {
+// findInvalidSubpathSegment of /repo after the fix e3ac7b5 (every segment, percent-decoded, case-insensitive)
+func esbInvalidSubpathSeg(p string) bool {
+	for _, s := range strings.FieldsFunc(p, func(c rune) bool { return c == '/' || c == '\\' }) {
+		d := s
+		if u, ok := pctDecode(s); ok {
+			d = u
+		}
+		if d == "." || d == ".." || strings.EqualFold(d, "node_modules") {
 			return true
 		}
 	}
 	return false
+}
+
+// findInvalidSegment: the first segment is skipped
+func esbInvalidSeg(p string) bool {
+	i := strings.IndexAny(p, "/\\")
+	if i < 0 {
+		return false
+	}
+	return esbInvalidSubpathSeg(p[i+1:])
 }
 
 func urlPlain(s string) bool {
@@ -579,8 +589,8 @@ func classify(m *jv, sub string, isImports bool) []string {
 				}
 				_ = i
 			}
-			if dot && nodot && (!isTop || isImports) {
-				tags["nested-mixed-keys"] = true
+			if dot && nodot && isTop && isImports {
+				tags["imports-top-mixed-keys"] = true // what is left of D4 after the fix 4e82ea6
 			}
 			for _, v := range j.vals {
 				visit(v)
@@ -612,7 +622,7 @@ func classify(m *jv, sub string, isImports bool) []string {
 				base, trailer := k[:i], k[i+1:]
 				if strings.HasPrefix(sub, base) && strings.HasSuffix(sub, trailer) && len(sub) >= len(k)-1 && len(sub) >= len(base)+len(trailer) {
 					pm := sub[len(base) : len(sub)-len(trailer)]
-					if nodeInvalidSeg.MatchString(pm) != esbInvalidSeg(pm) {
+					if nodeInvalidSeg.MatchString(pm) != esbInvalidSubpathSeg(pm) {
 						tags["segment-rules"] = true
 					}
 				}
@@ -1948,24 +1958,25 @@ type witness struct {
 	kinds    []string          // default: require and import
 	raw      map[string]string // extra files with literal contents
 	importer string            // default main.js
+	fixed    string            // commit that repaired the finding: the scenario must now agree (a divergence is a regression)
 }
 
 var witnesses = []witness{
-	{"pattern-base-equals-subpath", "pattern-base", jobj("./foo*", "./lib/foo*.js"), "pkg/foo", []string{"lib/foo.js"}, nil, nil, nil, ""},
-	{"pattern-base-shadows-shorter-pattern", "pattern-base", jobj("./foo*", "./lib/foo*.js", "./fo*", "./x/*.js"), "pkg/foo", []string{"lib/foo.js", "x/o.js"}, nil, nil, nil, ""},
-	{"invalid-segment-uppercase-node-modules", "segment-rules", jobj("./x", "./lib/NODE_MODULES/x.js"), "pkg/x", []string{"lib/NODE_MODULES/x.js"}, nil, nil, nil, ""},
-	{"invalid-segment-percent-encoded-dotdot-target", "segment-rules", jobj("./a", "./lib/%2e%2e/x.js"), "pkg/a", []string{"x.js", "lib/a.js"}, nil, nil, nil, ""},
-	{"invalid-segment-first-segment-of-pattern-match", "segment-rules", jobj("./*", "./lib/*"), "pkg/../secret.js", []string{"secret.js", "lib/a.js"}, nil, nil, nil, ""},
-	{"invalid-segment-node-modules-pattern-match", "segment-rules", jobj("./*", "./lib/*"), "pkg/node_modules/s.js", []string{"lib/node_modules/s.js"}, nil, nil, nil, ""},
-	{"duplicate-key-first-wins", "dup-keys", jobj("./a", "./x.js", "./a", "./y.js"), "pkg/a", []string{"x.js", "y.js"}, nil, nil, nil, ""},
-	{"nested-object-mixed-keys", "nested-mixed-keys", jobj("./a", jobj("node", "./x.js", "./b", "./y.js")), "pkg/a", []string{"x.js", "y.js"}, nil, nil, nil, ""},
-	{"numeric-condition-key", "index-keys", jobj("./a", jobj("0", "./x.js", "default", "./y.js")), "pkg/a", []string{"x.js", "y.js"}, nil, nil, nil, ""},
-	{"backslash-in-target", "url-syntax", jobj("./a", "./lib\\x.js"), "pkg/a", []string{"lib/x.js"}, nil, nil, nil, ""},
-	{"query-in-target", "url-syntax", jobj("./a", "./lib/x.js?q"), "pkg/a", []string{"lib/x.js"}, nil, nil, nil, ""},
-	{"imports-specifier-hash-slash", "hash-slash", nil, "#/a", []string{"a.js"}, jobj("#/*", "./*.js"), nil, nil, ""},
-	{"imports-target-is-url", "url-target", nil, "#fs", nil, jobj("#fs", "node:fs"), nil, nil, ""},
-	{"star-in-specifier", "star-in-specifier", jobj("./index/*/b", "./index/index.mjs"), "pkg/index/*/b", []string{"index/index.mjs"}, nil, nil, nil, ""},
-	{"case-colliding-directory-entries", "case-colliding-entries", jobj("./x", "./index/A"), "pkg/x", []string{"index/A", "index/a/b.js"}, nil, nil, nil, ""},
+	{"pattern-base-equals-subpath", "pattern-base", jobj("./foo*", "./lib/foo*.js"), "pkg/foo", []string{"lib/foo.js"}, nil, nil, nil, "", ""},
+	{"pattern-base-shadows-shorter-pattern", "pattern-base", jobj("./foo*", "./lib/foo*.js", "./fo*", "./x/*.js"), "pkg/foo", []string{"lib/foo.js", "x/o.js"}, nil, nil, nil, "", ""},
+	{"invalid-segment-uppercase-node-modules", "segment-rules", jobj("./x", "./lib/NODE_MODULES/x.js"), "pkg/x", []string{"lib/NODE_MODULES/x.js"}, nil, nil, nil, "", "e3ac7b5"},
+	{"invalid-segment-percent-encoded-dotdot-target", "segment-rules", jobj("./a", "./lib/%2e%2e/x.js"), "pkg/a", []string{"x.js", "lib/a.js"}, nil, nil, nil, "", "e3ac7b5"},
+	{"invalid-segment-first-segment-of-pattern-match", "segment-rules", jobj("./*", "./lib/*"), "pkg/../secret.js", []string{"secret.js", "lib/a.js"}, nil, nil, nil, "", "e3ac7b5"},
+	{"invalid-segment-node-modules-pattern-match", "segment-rules", jobj("./*", "./lib/*"), "pkg/node_modules/s.js", []string{"lib/node_modules/s.js"}, nil, nil, nil, "", "e3ac7b5"},
+	{"duplicate-key-first-wins", "dup-keys", jobj("./a", "./x.js", "./a", "./y.js"), "pkg/a", []string{"x.js", "y.js"}, nil, nil, nil, "", ""},
+	{"nested-object-mixed-keys", "nested-mixed-keys", jobj("./a", jobj("node", "./x.js", "./b", "./y.js")), "pkg/a", []string{"x.js", "y.js"}, nil, nil, nil, "", "4e82ea6"},
+	{"numeric-condition-key", "index-keys", jobj("./a", jobj("0", "./x.js", "default", "./y.js")), "pkg/a", []string{"x.js", "y.js"}, nil, nil, nil, "", ""},
+	{"backslash-in-target", "url-syntax", jobj("./a", "./lib\\x.js"), "pkg/a", []string{"lib/x.js"}, nil, nil, nil, "", ""},
+	{"query-in-target", "url-syntax", jobj("./a", "./lib/x.js?q"), "pkg/a", []string{"lib/x.js"}, nil, nil, nil, "", ""},
+	{"imports-specifier-hash-slash", "hash-slash", nil, "#/a", []string{"a.js"}, jobj("#/*", "./*.js"), nil, nil, "", ""},
+	{"imports-target-is-url", "url-target", nil, "#fs", nil, jobj("#fs", "node:fs"), nil, nil, "", ""},
+	{"star-in-specifier", "star-in-specifier", jobj("./index/*/b", "./index/index.mjs"), "pkg/index/*/b", []string{"index/index.mjs"}, nil, nil, nil, "", ""},
+	{"case-colliding-directory-entries", "case-colliding-entries", jobj("./x", "./index/A"), "pkg/x", []string{"index/A", "index/a/b.js"}, nil, nil, nil, "", ""},
 	{scenario: "invalid-package-name-taken-as-self-reference", what: "nameless-self-reference", spec: "@foo", kinds: []string{"require"},
 		raw: map[string]string{
 			"package.json":               `{"exports":{".":"./own.js"}}`,
@@ -1976,15 +1987,16 @@ var witnesses = []witness{
 			"node_modules/dep/package.json": `{"name":"dep","main":"./main.js"}`,
 			"node_modules/dep/main.js":      "export default 1\n",
 			"node_modules/dep.js":           "export default 2\n"}},
-	{scenario: "package-scope-stops-at-node-modules", what: "scope-boundary", spec: "rootpkg", importer: "node_modules/nopkg/index.js",
+	{scenario: "package-scope-stops-at-node-modules", what: "scope-boundary", fixed: "6e6e7fa", spec: "rootpkg", importer: "node_modules/nopkg/index.js",
 		raw: map[string]string{
 			"package.json":                      `{"name":"rootpkg","exports":{".":"./own.js"}}`,
 			"own.js":                            "module.exports='own'\n",
 			"node_modules/rootpkg/package.json": `{"name":"rootpkg","exports":{".":"./copy.js"}}`,
 			"node_modules/rootpkg/copy.js":      "module.exports='copy'\n",
 			"node_modules/nopkg/index.js":       "module.exports=1\n"}},
-	{"percent-encoded-subpath-no-exports", "percent-encoded-relative-specifier", nil, "pkgn/lib/%61.js", []string{"node_modules/pkgn/lib/a.js", "node_modules/pkgn/package.json"}, nil, []string{"import"}, nil, ""},
-	{"percent-encoded-relative-import", "percent-encoded-relative-specifier", nil, "./%75til.js", []string{"util.js"}, nil, []string{"import"}, nil, ""},
+	{scenario: "imports-top-level-mixed-keys", what: "imports-top-mixed-keys", spec: "#a", imports: jobj("#a", "./a.js", "./b", "./b.js"), files: []string{"a.js", "b.js"}},
+	{"percent-encoded-subpath-no-exports", "percent-encoded-relative-specifier", nil, "pkgn/lib/%61.js", []string{"node_modules/pkgn/lib/a.js", "node_modules/pkgn/package.json"}, nil, []string{"import"}, nil, "", ""},
+	{"percent-encoded-relative-import", "percent-encoded-relative-specifier", nil, "./%75til.js", []string{"util.js"}, nil, []string{"import"}, nil, "", ""},
 }
 
 func textOrNone(j *jv) string {
@@ -2043,6 +2055,18 @@ func runWitnesses(tmp string, st *Stats) {
 		for i, c := range cases {
 			v := judge(nres[i], eres[i])
 			st.Note("witness:"+w.scenario, c.Kind, true)
+			if w.fixed != "" {
+				// fixed corpus: the finding was repaired in /repo by commit w.fixed; it must stay repaired
+				if v == "" {
+					st.Histogram["fixed-corpus-pass:"+w.scenario+":"+c.Kind]++
+				} else {
+					st.Fail("regression of a repaired finding ("+w.fixed+"): "+w.scenario,
+						map[string]interface{}{"scenario": w.scenario, "exports": textOrNone(w.exports), "imports": textOrNone(w.imports), "specifier": w.spec, "kind": c.Kind, "files": w.files, "raw_files": w.raw, "importer": w.importer},
+						map[string]interface{}{"esbuild_path": strings.TrimPrefix(eres[i].path, root), "esbuild_errors": eres[i].errs, "verdict": v},
+						map[string]interface{}{"node_ok": nres[i].OK, "node_path": strings.TrimPrefix(nres[i].Path, root), "node_code": nres[i].Code})
+				}
+				continue
+			}
 			if v == "" {
 				st.Histogram["witness-now-agrees:"+w.scenario+":"+c.Kind]++
 				continue
